@@ -346,7 +346,9 @@ impl Mac {
                 snr,
                 true,
             )),
-            State::Otaa(_) => Err(Error::NotJoined),
+            // A join is in progress: whatever is heard outside of its receive windows is
+            // not for us yet and must not end the join attempt
+            State::Otaa(_) => Ok(Response::NoUpdate),
             State::Unjoined => Err(Error::NotJoined),
         }
     }
